@@ -165,9 +165,23 @@ func (p *WorkerPool) SubmitWait(execute func() interface{}) (interface{}, bool) 
 
 // Stop shuts down the worker pool gracefully
 func (p *WorkerPool) Stop() {
+	if !p.stopWorkers() {
+		return
+	}
+
+	// Tasks still in the queue will never run. Close their result channels
+	// so SubmitWait reports them as not executed instead of blocking forever.
+	for task := range p.taskQueue {
+		close(task.ResultChan)
+	}
+}
+
+// stopWorkers stops the workers and closes the task queue, leaving any
+// queued tasks in it. Returns false if the pool was not running.
+func (p *WorkerPool) stopWorkers() bool {
 	// Use atomic to ensure we only stop once
 	if !atomic.CompareAndSwapInt32(&p.running, 1, 0) {
-		return // Not running
+		return false // Not running
 	}
 
 	// Signal all workers to stop
@@ -189,6 +203,7 @@ func (p *WorkerPool) Stop() {
 	p.wg.Wait()
 
 	p.logger.logger.Printf("Worker pool stopped")
+	return true
 }
 
 // Stats returns statistics about the worker pool
@@ -227,7 +242,7 @@ func (p *WorkerPool) Resize(maxWorkers int) {
 	// Stop the pool if it's running
 	// This will close the old queue and wait for all workers to finish
 	if wasRunning {
-		p.Stop()
+		p.stopWorkers()
 	}
 
 	// Drain remaining tasks from old queue and notify callers.
